@@ -60,6 +60,7 @@ MUST_COUNT = ["driver_outcomes_compared", "stopfill_seen_by_fill_driver", "matri
 MIN_NONTRIVIAL = {"quick": 8000, "thorough": 250000}
 EXHAUSTIVE = {"quick": True, "thorough": True}
 NCHAIN = {"quick": 10000, "thorough": 400000}
+NBIG = {"quick": 400, "thorough": 15000}
 LEVEL_TEXT = ("Seeded random chains pre* acc post* are executed by every driver (Sequence.run, "
               "Split.run for every bufsize, FillComputeSeq and FillSeq filled until "
               "LenaStopFill) on the real code and the recorded outcomes compared for equality; "
@@ -187,6 +188,8 @@ def cases(tier, seed):
             for acc in (["store", 1], ["sum"], ["fccount", "c"]):
                 for where in ("callable", "getter"):
                     yield {"k": "userstop", "n": n, "at": at, "acc": acc, "where": where}
+    for c in big_cases(tier, seed):
+        yield c
     for i in range(NCHAIN[tier]):
         rng = gen.rng_for(seed, "C05chain", i)
         flow = gen.rand_flow(rng, 8)
@@ -206,6 +209,40 @@ def cases(tier, seed):
                     else:
                         flow[j] = special
         yield {"k": "chain", "pre": pre, "acc": acc, "post": post, "flow": flow}
+
+
+def big_cases(tier, seed):
+    """Chains beyond the small sizes: flows of 17..300 values, up to 10 pre and 6 post elements,
+    Slices with indices in the tens."""
+    def bigslice(rng, nflow):
+        a = rng.choice([0, 1, 5, 15, 16, 17, 31, 33])
+        return ["slice", rng.choice([
+            [rng.randint(0, nflow + 1)], [a, None], [a, a + rng.choice([1, 16, 17, 32, 64, 100])],
+            [a, None, rng.choice([1, 2, 7, 16])], [None, rng.randint(0, nflow + 1),
+                                                   rng.choice([1, 3, 17])]])]
+    for i in range(NBIG[tier]):
+        rng = gen.rng_for(seed, "C05big", i)
+        shape = i % 3
+        nf = (rng.randint(3, 12), rng.choice([17, 33, 64, 65, 100, 129, 257, rng.randint(17, 300)]),
+              rng.randint(17, 70))[shape]
+        npre = (rng.randint(5, 10), rng.randint(0, 3), rng.randint(4, 7))[shape]
+        npost = (rng.randint(3, 6), rng.randint(0, 2), rng.randint(2, 4))[shape]
+        ctx = rng.random() < 0.4
+        flow = [[rng.randint(-3, 9), {"i": j}] if ctx else rng.randint(-3, 9) for j in range(nf)]
+        pre = []
+        for _ in range(npre):
+            x = rng.random()
+            if x < 0.5:
+                pre.append(["call", rng.choice(CALLS)] if rng.random() < 0.7
+                           else ["var", rng.choice("xyz"), rng.choice(["inc", "neg", "half"])])
+            elif x < 0.7:
+                pre.append(bigslice(rng, nf))
+            else:
+                pre.append(rand_pre_el(rng, nf))
+        post = [rand_post_el(rng, nf) if rng.random() < 0.6 else bigslice(rng, nf)
+                for _ in range(npost)]
+        yield {"k": "chain", "pre": pre, "acc": rng.choice(ACCS), "post": post, "flow": flow,
+               "big": 1}
 
 
 def mkvec(v):
@@ -292,6 +329,10 @@ def drivers(r, obs):
     res.append(("fill-seq", outcome(d_fillseq)))
 
     bufsizes = list(range(1, n + 2)) + [1000, None]
+    if r.get("big"):
+        # a long flow: block sizes around powers of two and around the flow length
+        bufsizes = sorted(set([1, 2, 3, 7, 8, 9, 15, 16, 17, 31, 32, 33, 63, 64, 65, n - 1, n,
+                               n + 1]) - {0, -1}) + [1000, None]
     for b in bufsizes:
         def d_split(b=b):
             pre, acc, post = build_chain(r)
